@@ -1551,23 +1551,28 @@ class SVG:
         if isinstance(string, bytes):
             string = string.decode("utf-8")
 
+        def parse(text):
+            # encode because fromstring dislikes xml encoding decl if input is str
+            parser = etree.XMLParser(
+                remove_comments=True,
+                remove_blank_text=True,
+                # external entities may load local files (e.g. /etc/passwd), so disable
+                # safe entities like &gt; are still allowed
+                resolve_entities=False,
+            )
+            return etree.fromstring(text.encode("utf-8"), parser)
+
         # svgs are fond of not declaring xlink
         # based on https://mailman-mail5.webfaction.com/pipermail/lxml/20100323/021184.html
-        # (a comment that merely mentions xmlns:xlink does not declare it)
-        if "xlink" in string and "xmlns:xlink" not in re.sub(
-            r"<!--.*?-->", "", string, flags=re.DOTALL
-        ):
-            string = string.replace("xlink:href", _XLINK_TEMP)
-
-        # encode because fromstring dislikes xml encoding decl if input is str
-        parser = etree.XMLParser(
-            remove_comments=True,
-            remove_blank_text=True,
-            # external entities may load local files (e.g. /etc/passwd), so disable
-            # safe entities like &gt; are still allowed
-            resolve_entities=False,
-        )
-        tree = etree.fromstring(string.encode("utf-8"), parser)
+        # Whether the prefix is declared where it is used is for the parser to say: a
+        # comment, a processing instruction or some metadata mentioning xmlns:xlink is not
+        # a declaration for the rest of the document
+        try:
+            tree = parse(string)
+        except etree.XMLSyntaxError:
+            if "xlink:href" not in string:
+                raise
+            tree = parse(string.replace("xlink:href", _XLINK_TEMP))
         tree = _fix_xlink_ns(tree)
         return cls(tree)
 
